@@ -420,6 +420,12 @@ func rootCause(prog *ast.Program, text string) string {
 	})
 	xutil.WalkNodes(prog, func(n any) {
 		switch x := n.(type) {
+		case *ast.ReturnStatement:
+			if x.ReturnValue != nil {
+				if lt, ok := xutil.LeftmostExprToken(x.ReturnValue); ok && lt.Start.Line > x.Token.Start.Line {
+					set("parser:return-value-read-across-line-break")
+				}
+			}
 		case *ast.PostfixExpression:
 			if x.Token.AfterNewline {
 				set("parser:postfix-operator-applied-across-line-break")
